@@ -1731,7 +1731,7 @@ class Engine:
             if isinstance(sh, TDict):
                 kt = box(k, sh.k)
                 if getattr(sh, 'counter', False):
-                    return unbox(z3.If(sh.has(c.term, kt), sh.get(c.term, kt), z3.IntVal(0)), sh.v)
+                    return unbox(z3.If(sh.has(c.term, kt), sh.get(c.term, kt), T.F_ZERO if sh.v == TF else z3.IntVal(0)), sh.v)
                 if safe and getattr(self, 'try_key_depth', 0) > 0:
                     # inside a try that catches KeyError: both outcomes are explored
                     k2 = st.choose(2)
